@@ -23,7 +23,7 @@ Cnt0 == [steps |-> 0, execs |-> 0, encoders |-> 0,
          xmiLoads |-> 0, xmiPlays |-> 0, xmiGroups |-> 0, xmiEvents |-> 0, xmiNoteOffs |-> 0, xmiTimed |-> 0, xmiMulti |-> 0,
          xmiSelected |-> 0, xmiReselect |-> 0, xmiSongCounts |-> 0,
          contPlays |-> 0, contSame |-> 0, contEvents |-> 0, rmi |-> 0, gmf |-> 0, skipped |-> 0,
-         refined |-> 0, drifted |-> 0, refskip |-> 0, refEvents |-> 0, refMus |-> 0, refXmi |-> 0, refSongs |-> 0, refRejected |-> 0]
+         refined |-> 0, drifted |-> 0, refskip |-> 0, refEvents |-> 0, refMus |-> 0, refXmi |-> 0, refSongs |-> 0, refRejected |-> 0, refCrashPredicted |-> 0, refUndefined |-> 0]
 Init == l = 1 /\ src = Src0 /\ sel = 0 /\ prev = Prev0 /\ fails = <<>> /\ cnt = Cnt0 /\ exec = 0 /\ drift = <<>>
 
 Tag(S, ev, d) == { [p |-> "C17", w |-> x, l |-> l, x |-> exec, e |-> ev.e, d |-> d] : x \in S }
@@ -141,6 +141,9 @@ SmfPlayFails(ev, s) ==
 StepInit(ev) == /\ src' = Src0 /\ sel' = 0 /\ prev' = Prev0 /\ exec' = exec + 1 /\ UNCHANGED <<fails, drift>>
                 /\ cnt' = [cnt EXCEPT !.execs = @ + 1]
 \* everything derived from the source is computed once here (TLC does not memoise operator applications)
+\* leg (C): what the implementation models say the real converter makes of these bytes (computed once per source)
+CvtModel(kind, bytes) == IF kind = "mus" THEN LET o == Mus2Mid(bytes, 0) IN IF o.ok THEN [ok |-> TRUE, songs |-> << o >>] ELSE o
+                         ELSE Xmi2Mid(bytes)
 MkMusSrc(sc, bytes) ==
   LET wf == WellFormed(sc)
       its == IF wf THEN MusItems(sc) ELSE <<>>
@@ -165,13 +168,16 @@ StepMus(ev) ==
       wf == WellFormed(sc) /\ ~Mangled(ev)
       mb == MusMangle(MusBytes(sc, ev.chans, ev.ins), ev)
       enc == ev.bytes = <<>> \/ ev.bytes = mb
-  IN /\ src' = [MkMusSrc(sc, mb) EXCEPT !.wf = wf]
+      model == CvtModel("mus", mb)
+  IN /\ src' = [MkMusSrc(sc, mb) EXCEPT !.wf = wf] @@ [model |-> model]
      /\ fails' = AddFails(Tag(Lbl(enc, "harness-encoder"), ev, "MUS bytes differ from MusRef!MusBytes"))
      /\ cnt' = [cnt EXCEPT !.steps = @ + 1, !.encoders = @ + (IF ev.bytes # <<>> THEN 1 ELSE 0), !.skipped = @ + (IF wf THEN 0 ELSE 1),
                            !.musSys = @ + (IF HasSys(sc) THEN 1 ELSE 0), !.musOddPitch = @ + (IF HasOddPitch(sc) THEN 1 ELSE 0),
                            !.musMemVol = @ + Cardinality({ i \in DOMAIN sc : sc[i].k = "play" /\ sc[i].v = -1 }),
                            !.musPerc = @ + (IF \E i \in DOMAIN sc : sc[i].ch = 15 /\ sc[i].k # "end" THEN 1 ELSE 0),
-                           !.musLongDelay = @ + Cardinality({ i \in DOMAIN sc : sc[i].dl >= 128 })]
+                           !.musLongDelay = @ + Cardinality({ i \in DOMAIN sc : sc[i].dl >= 128 }),
+                           !.refCrashPredicted = @ + (IF "crash" \in DOMAIN model THEN 1 ELSE 0),
+                           !.refUndefined = @ + (IF "unmodelled" \in DOMAIN model THEN 1 ELSE 0)]
      /\ UNCHANGED <<sel, prev, exec, drift>>
 MkXmiSrc(songs, bytes) ==
   LET f == [songs |-> songs]
@@ -184,7 +190,7 @@ StepXmi(ev) ==
       wf == XmiWellFormed(f)
       xb == XmiBytes(f)
       enc == ev.bytes = <<>> \/ ev.bytes = xb
-  IN /\ src' = MkXmiSrc(ev.songs, xb)
+  IN /\ src' = MkXmiSrc(ev.songs, xb) @@ [model |-> CvtModel("xmi", xb)]
      /\ fails' = AddFails(Tag(Lbl(enc, "harness-encoder"), ev, "XMI bytes differ from XmiRef!XmiBytes"))
      /\ cnt' = [cnt EXCEPT !.steps = @ + 1, !.encoders = @ + (IF ev.bytes # <<>> THEN 1 ELSE 0), !.skipped = @ + (IF wf THEN 0 ELSE 1),
                            !.xmiMulti = @ + (IF Len(ev.songs) > 1 THEN 1 ELSE 0)]
@@ -246,8 +252,6 @@ StepPlay(ev) ==
      /\ UNCHANGED <<src, sel, exec, drift>>
 ---------------------------------------------------------------------------
 (* leg (C): the recorded output of the real converter against the implementation models *)
-CvtModel(s) == IF s.kind = "mus" THEN LET o == Mus2Mid(s.bytes, 0) IN IF o.ok THEN [ok |-> TRUE, songs |-> << o >>] ELSE o
-               ELSE Xmi2Mid(s.bytes)
 FirstDiff(a, b) == CHOOSE i \in 1..(Min(Len(a), Len(b)) + 1) :
                      (i > Len(a) \/ i > Len(b) \/ a[i] # b[i]) /\ \A j \in 1..(i - 1) : a[j] = b[j]
 At(s, i) == IF i <= Len(s) THEN s[i] ELSE "none"
@@ -276,8 +280,8 @@ CvtDiff(m, ev) ==
   ELSE LET D == { s \in DOMAIN m.songs : SongDiff(m.songs[s], ev.songs[s]) # "" } IN
        IF D = {} THEN "" ELSE LET s == CHOOSE x \in D : \A y \in D : x <= y IN ToString(<<"song", s - 1>>) \o " " \o SongDiff(m.songs[s], ev.songs[s])
 StepCvt(ev) ==
-  LET go == src.kind \in {"mus", "xmi"} /\ "bytes" \in DOMAIN src /\ ev.kind = src.kind
-      m == IF go THEN CvtModel(src) ELSE [ok |-> FALSE, unmodelled |-> TRUE]
+  LET go == src.kind \in {"mus", "xmi"} /\ "model" \in DOMAIN src /\ ev.kind = src.kind
+      m == IF go THEN src.model ELSE [ok |-> FALSE, unmodelled |-> TRUE]
       skip == ~go \/ "unmodelled" \in DOMAIN m
       d == IF skip THEN "" ELSE CvtDiff(m, ev)
       nev == IF skip \/ ~m.ok THEN 0 ELSE SumSeq([s \in DOMAIN m.songs |-> Len(m.songs[s].tracks[1].ev)])
